@@ -5,6 +5,7 @@ import Req.Client.Merge
 import Req.H2.Fields
 import Req.H1.Origin
 import Req.H3.BodyWrite
+import Req.H1.BodyWrite
 import Req.H1.RoundTrip
 import Req.Client.Replay
 import Req.Props.C01ConnSeq
@@ -311,6 +312,24 @@ def laneH3Body : List String → String
     | _, _, _, _ => "bad-op"
   | _ => "bad-op"
 
+/-- `c01h1body <method> <cl|-1> <buf> <body> <read sizes> <ending>`: `newTransferWriter` +
+`transferWriter.writeBody` on a scripted body reader — the framing chosen, how `writeBody` ends,
+every byte it wrote. -/
+def laneH1Body : List String → String
+  | [method, cl, buf, body, sizes, ending] =>
+    match decodeHex method, decodeInt cl, buf.toNat?, Wire.decodeBody body, decodeNatList sizes,
+          decodeEnding ending with
+    | some method, some cl, some buf, some body, some sizes, some ending =>
+      let p := Req.H1.BodyWrite.plan method (if cl ≤ 0 then none else some cl.toNat)
+        { data := body, sizes := sizes, ending := ending }
+      let (w, o) := Req.H1.BodyWrite.writeBody buf p
+      let ms := match p.mode with
+        | .noBody => "nobody" | .chunked => "chunked" | .identity => "identity" | .known n => s!"known:{n}"
+      let os := match o with | .ok => "ok" | .readError => "readerr" | .bodyLength => "bodylen"
+      s!"{ms} {os} " ++ Wire.showBlob w
+    | _, _, _, _, _, _ => "bad-op"
+  | _ => "bad-op"
+
 /-! ### transparent replays -/
 
 def decodeKind : String → Option Req.Replay.BodyKind
@@ -485,6 +504,7 @@ def lanes : List (String × (List String → String)) := [
   ("c01send", laneSend),
   ("c01h2body", laneH2Body),
   ("c01h3body", laneH3Body),
+  ("c01h1body", laneH1Body),
   ("c01pipe", lanePipe),
   ("c01h1", laneH1),
   ("c01url", laneUrl),
